@@ -2,6 +2,7 @@ package props
 
 import (
 	"fmt"
+	"regexp"
 	"strings"
 
 	"github.com/vedadiyan/genql"
@@ -11,7 +12,7 @@ import (
 	"verifharness/internal/val"
 )
 
-var c08Floor = []string{"depth.2", "depth.3", "inner.empty", "outer.empty", "mid.empty", "ragged", "where", "item.alias", "item.nonidempotent", "item.star", "item.async", "item.userfn", "mix", "mix.keep", "reexec.after-fault", "opt.vars", "opt.constants", "item.aggregate", "item.all-aggregate", "where.aggregate", "reexec"}
+var c08Floor = []string{"depth.2", "depth.3", "inner.empty", "outer.empty", "mid.empty", "ragged", "where", "item.alias", "item.nonidempotent", "item.star", "item.async", "item.userfn", "mix", "mix.keep", "reexec.after-fault", "opt.vars", "opt.constants", "item.aggregate", "item.all-aggregate", "where.aggregate", "reexec", "naming.table-qualified"}
 
 func init() {
 	fw.Register(&fw.Prop{
@@ -33,6 +34,8 @@ func init() {
 		Witness: sqlWitness,
 	})
 }
+
+var c08ColRe = regexp.MustCompile(`\b(rid|n1|n2|s1|b1|z1)\b`)
 
 func c08Run(c *fw.Case) {
 	force := ""
@@ -119,9 +122,22 @@ func c08Run(c *fw.Case) {
 	doc := map[string]any{"mm": mm}
 	// query
 	pg := &gen.PredGen{R: c.R, T: tmpl, MaxDepth: 2, Disable: map[string]bool{"in.subquery": true}}
+	// the columns may be named with the table's own name (mm.n1 FROM mm): the
+	// inner arrays, the flattened source and a flat array answer alike
+	qual := ""
+	if force == "naming.table-qualified" || (force == "" && c.Chance(0.12)) {
+		qual = "mm"
+		feats = append(feats, "naming.table-qualified")
+	}
+	qcols := func(text string) string {
+		if qual == "" {
+			return text
+		}
+		return c08ColRe.ReplaceAllString(text, qual+".$1")
+	}
 	where := ""
 	if force == "where" || force == "mix" || c.Chance(0.6) {
-		where = " WHERE " + gen.RenderPred(pg.Gen(), gen.RenderOpts{})
+		where = " WHERE " + gen.RenderPred(pg.Gen(), gen.RenderOpts{Qualifier: qual})
 		feats = append(feats, "where")
 	}
 	var items []string
@@ -160,7 +176,7 @@ func c08Run(c *fw.Case) {
 	// (mix=> computes it over the flattened whole, so it is not asserted then)
 	whereAgg := false
 	if !containsStr(feats, "item.userfn") && !containsStr(feats, "item.async") && (force == "where.aggregate" || force == "reexec" || c.Chance(0.1)) {
-		aw := gen.Pick(c.R, []string{"n1 >= AVG(n1)", "n1 <= COUNT(*)", "n1 < MAX(n1)", "n2 > MIN(n2)"})
+		aw := qcols(gen.Pick(c.R, []string{"n1 >= AVG(n1)", "n1 <= COUNT(*)", "n1 < MAX(n1)", "n2 > MIN(n2)"}))
 		if where == "" {
 			where = " WHERE " + aw
 		} else {
@@ -198,9 +214,9 @@ func c08Run(c *fw.Case) {
 	if useVars {
 		items = append(items, "GETVAR('tag') AS tg")
 		if where == "" {
-			where = " WHERE n1 >= GETVAR('min')"
+			where = " WHERE " + qcols("n1") + " >= GETVAR('min')"
 		} else {
-			where = " WHERE n1 >= GETVAR('min') AND (" + strings.TrimPrefix(where, " WHERE ") + ")"
+			where = " WHERE " + qcols("n1") + " >= GETVAR('min') AND (" + strings.TrimPrefix(where, " WHERE ") + ")"
 		}
 		feats = append(feats, "opt.vars", "where")
 	}
@@ -208,9 +224,20 @@ func c08Run(c *fw.Case) {
 		items = append(items, "CONSTANT('c1') AS ck", "(n1 + CONSTANT('c2')) AS cn")
 		feats = append(feats, "opt.constants")
 	}
+	for i, it := range items {
+		// the expression is qualified, the output name is not
+		if expr, as, aliased := strings.Cut(it, " AS "); aliased {
+			items[i] = qcols(expr) + " AS " + as
+		} else {
+			items[i] = qcols(it)
+		}
+	}
 	sel := strings.Join(items, ", ")
 	sql := "SELECT " + sel + " FROM mm" + where
-	inner := "SELECT " + sel + " FROM t" + where
+	inner, innerKey := "SELECT "+sel+" FROM t"+where, "t"
+	if qual != "" {
+		inner, innerKey = sql, "mm"
+	}
 	armFault(0, faultNone)
 	o := Run(val.CopyMap(doc), sql, opts()...)
 	waitBackground()
@@ -229,7 +256,7 @@ func c08Run(c *fw.Case) {
 	var check func(src []any, got any, d int, path string) bool
 	check = func(src []any, got any, d int, path string) bool {
 		if d == 1 {
-			so := Run(map[string]any{"t": val.Copy(src)}, inner, opts()...)
+			so := Run(map[string]any{innerKey: val.Copy(src)}, inner, opts()...)
 			evals++
 			if !so.OK() {
 				c.Discard("inner standalone failed")
